@@ -1178,12 +1178,23 @@ func localAddr(v ssa.Value) bool {
 	return false
 }
 
-// mapValKey: can this heap cell hold (part of) the value of a map entry? The set is computed once from
-// the map types that occur in the functions of the loaded packages.
+// mapValKey: can this heap cell hold (part of) the value of a map entry? Computed per package from the
+// map types that occur in its functions (another package's maps are not reachable from this one's code
+// except through values of those types, which would make the type occur here as well).
 func (f *fnState) mapValKey(key string) bool {
 	e := f.e
-	e.mapValOnce.Do(func() {
-		e.mapValKeys = map[string]bool{}
+	pkg := ""
+	if f.fn != nil && f.fn.Pkg != nil {
+		pkg = f.fn.Pkg.Pkg.Path()
+	}
+	e.mapValMu.Lock()
+	defer e.mapValMu.Unlock()
+	if e.mapValKeys == nil {
+		e.mapValKeys = map[string]map[string]bool{}
+	}
+	set, ok := e.mapValKeys[pkg]
+	if !ok {
+		set = map[string]bool{}
 		seen := map[types.Type]bool{}
 		var visit func(t types.Type)
 		visit = func(t types.Type) {
@@ -1194,7 +1205,7 @@ func (f *fnState) mapValKey(key string) bool {
 			switch u := t.Underlying().(type) {
 			case *types.Map:
 				for _, k := range f.leafKeys(u.Elem()) {
-					e.mapValKeys[k] = true
+					set[k] = true
 				}
 				visit(u.Elem())
 			case *types.Struct:
@@ -1210,7 +1221,7 @@ func (f *fnState) mapValKey(key string) bool {
 			}
 		}
 		for fn := range ssautil.AllFunctions(e.Prog) {
-			if fn.Pkg == nil || len(fn.Blocks) == 0 {
+			if fn.Pkg == nil || len(fn.Blocks) == 0 || fn.Pkg.Pkg.Path() != pkg {
 				continue
 			}
 			for _, b := range fn.Blocks {
@@ -1221,6 +1232,7 @@ func (f *fnState) mapValKey(key string) bool {
 				}
 			}
 		}
-	})
-	return e.mapValKeys[key]
+		e.mapValKeys[pkg] = set
+	}
+	return set[key]
 }
